@@ -329,7 +329,7 @@ def wrapParaCb (width : Int) (lineSep : List α) (_ : Nat) (para pre suf : List 
   pure [if lineSep.isSuffixOf para then text ++ lineSep else text]
 
 theorem wrapOpts_para (ed : Editor α) (width : Int) (o : Options α)
-    (hpp : o.preservePara = true) :
+    (hpp : o.preservePara = true) (hph : cx.phA ∉ (o.withDefaults cx).lineSep) :
     ed.wrapOpts cx width o =
       ed.applyParasM cx (wrapParaCb cx (if width < 2 then 2 else width)
         (o.withDefaults cx).lineSep) o := by
@@ -337,7 +337,7 @@ theorem wrapOpts_para (ed : Editor α) (width : Int) (o : Options α)
     rw [withDefaults_preservePara]; exact hpp
   rw [← applyParasM_withDefaults]
   unfold Editor.wrapOpts
-  simp only [hppd, if_true]
+  simp only [hppd, if_true, Ctx.placeholder_eq_phA cx hph]
   rfl
 
 /-- the paragraph callback of `JustifyOpts` -/
@@ -355,7 +355,7 @@ def justifyParaCb (width : Int) (lineSep : List α) (jl : Bool) (_ : Nat) (para 
   pure [if se > 0 then gSub cx text ss (-se) else gSub cx text ss (gLen cx text)]
 
 theorem justifyOpts_para (ed : Editor α) (width : Int) (o : Options α)
-    (hpp : o.preservePara = true) :
+    (hpp : o.preservePara = true) (hph : cx.phA ∉ (o.withDefaults cx).lineSep) :
     ed.justifyOpts cx width o =
       ed.applyParasM cx (justifyParaCb cx width (o.withDefaults cx).lineSep
         (o.withDefaults cx).justifyLast) o := by
@@ -363,7 +363,7 @@ theorem justifyOpts_para (ed : Editor α) (width : Int) (o : Options α)
     rw [withDefaults_preservePara]; exact hpp
   rw [← applyParasM_withDefaults]
   unfold Editor.justifyOpts
-  simp only [hppd, if_true]
+  simp only [hppd, if_true, Ctx.placeholder_eq_phA cx hph]
   rfl
 
 /-- the paragraph callback of `AlignOpts` -/
@@ -477,16 +477,28 @@ theorem wrapParaCb_bridge (hV : VocabStable V = true) (hsp : [0x20] ∈ V) (hhy 
     · simp only [List.map_cons, List.map_nil, List.flatten_append]
     · rfl
 
+/-- the letter `A` is not a rune of the line separator: then WrapOpts pads with `A` on both levels
+(`Ctx.placeholder_eq_phA`) -/
+theorem phA_not_mem_B {L : List (List Int)} (hAL : (0x41 : Int) ∉ L.flatten) : cxB.phA ∉ L :=
+  fun h => hAL (List.mem_flatten.2 ⟨[0x41], h, List.mem_singleton.2 rfl⟩)
+
+theorem phA_not_mem_A (o : Options (List Int)) (hne : ∀ t ∈ (o.withDefaults cxB).lineSep, t ≠ [])
+    (hAL : (0x41 : Int) ∉ ((o.withDefaults cxB).lineSep).flatten) :
+    cxA.phA ∉ (o.flat.withDefaults cxA).lineSep := by
+  rw [lineSep_flat_gen o hne]; exact hAL
+
 /-- **7b.** `Editor.WrapOpts`, paragraph mode (`[0x41]`, the placeholder "A", must be a token of
-the vocabulary) -/
+the vocabulary and must not be a rune of the line separator: a separator that contains it is padded
+with another letter — the repair of defect D18 — which need not be a cluster of `V`) -/
 theorem wrapOpts_bridge_para (hV : VocabStable V = true) (hsp : [0x20] ∈ V) (hhy : [0x2D] ∈ V)
     (hA : [0x41] ∈ V) (hspTail : ∀ t ∈ V, (0x20 : Int) ∉ t.tail) (ed : Editor (List Int))
     (ht : ∀ t ∈ ed.text, t ∈ V) (width : Int) (o : Options (List Int))
     (hpp : o.preservePara = true)
-    (hG : GoodPara V (o.withDefaults cxB).lineSep (o.withDefaults cxB).paraSep) :
+    (hG : GoodPara V (o.withDefaults cxB).lineSep (o.withDefaults cxB).paraSep)
+    (hAL : (0x41 : Int) ∉ ((o.withDefaults cxB).lineSep).flatten) :
     Editor.wrapOpts cxA ed.flat width o.flat = (Editor.wrapOpts cxB ed width o).map Editor.flat := by
-  rw [wrapOpts_para cxA ed.flat width o.flat hpp, wrapOpts_para cxB ed width o hpp,
-    lineSep_flat_gen o hG.line.tok_ne]
+  rw [wrapOpts_para cxA ed.flat width o.flat hpp (phA_not_mem_A o hG.line.tok_ne hAL),
+    wrapOpts_para cxB ed width o hpp (phA_not_mem_B hAL), lineSep_flat_gen o hG.line.tok_ne]
   exact applyParasM_bridge hV ed ht o hG _ _
     (wrapParaCb_bridge hV hsp hhy hA hspTail hG.line hG.lineV _)
 
@@ -658,10 +670,12 @@ theorem justifyOpts_bridge_para (hV : VocabStable V = true) (hsp : [0x20] ∈ V)
     (hA : [0x41] ∈ V) (hspTail : ∀ t ∈ V, (0x20 : Int) ∉ t.tail) (ed : Editor (List Int))
     (ht : ∀ t ∈ ed.text, t ∈ V) (width : Int) (o : Options (List Int))
     (hpp : o.preservePara = true)
-    (hG : GoodPara V (o.withDefaults cxB).lineSep (o.withDefaults cxB).paraSep) :
+    (hG : GoodPara V (o.withDefaults cxB).lineSep (o.withDefaults cxB).paraSep)
+    (hAL : (0x41 : Int) ∉ ((o.withDefaults cxB).lineSep).flatten) :
     Editor.justifyOpts cxA ed.flat width o.flat =
       (Editor.justifyOpts cxB ed width o).map Editor.flat := by
-  rw [justifyOpts_para cxA ed.flat width o.flat hpp, justifyOpts_para cxB ed width o hpp,
+  rw [justifyOpts_para cxA ed.flat width o.flat hpp (phA_not_mem_A o hG.line.tok_ne hAL),
+    justifyOpts_para cxB ed width o hpp (phA_not_mem_B hAL),
     lineSep_flat_gen o hG.line.tok_ne, (withDefaults_fields cxA o.flat).2.2.2.2.2.1,
     (withDefaults_fields cxB o).2.2.2.2.2.1]
   exact applyParasM_bridge hV ed ht o hG _ _
@@ -1035,9 +1049,9 @@ example (toks : List (List Int)) (ht : ∀ t ∈ toks, t ∈ demoVocabA) (align 
   exact ⟨alignOpts_bridge_para demoVocabA_stable (by decide) (.root toks o0) ht align width o hpp hG,
     indentOpts_bridge_para demoVocabA_stable (.root toks o0) ht level o hpp hG hi,
     justifyOpts_bridge_para demoVocabA_stable (by decide) (by decide) hspT (.root toks o0) ht width o
-      hpp hG,
+      hpp hG (by rw [(default_seps o hl hp).1]; decide),
     wrapOpts_bridge_para demoVocabA_stable (by decide) (by decide) (by decide) hspT (.root toks o0)
-      ht width o hpp hG⟩
+      ht width o hpp hG (by rw [(default_seps o hl hp).1]; decide)⟩
 
 /-- the look-ahead is really exercised: "a\n\n\nb" has the paragraphs "a\n" and "b" on both
 levels -/
